@@ -71,9 +71,11 @@ func (c *Calcium) newWorkloadSender(ctx context.Context, ID string, resp chan *t
 				curFile = data.Dst
 				pr, pw := io.Pipe()
 				writer = pw
-				utils.SentryGo(func(ID, name string, size int64, content io.Reader, uid, gid int, mode int64) func() {
+				utils.SentryGo(func(ID, name string, size int64, content *io.PipeReader, uid, gid int, mode int64) func() {
 					return func() {
 						defer wg.Done()
+						// whatever happened, nobody reads the content any more: unblock the writer
+						defer content.Close()
 						if err := sender.calcium.withWorkloadLocked(ctx, ID, false, func(ctx context.Context, workload *types.Workload) error {
 							err := errors.WithStack(workload.Engine.VirtualizationCopyChunkTo(ctx, ID, name, size, content, uid, gid, mode))
 							resp <- &types.SendMessage{ID: ID, Path: name, Error: err}
@@ -91,6 +93,9 @@ func (c *Calcium) newWorkloadSender(ctx context.Context, ID string, resp chan *t
 			}
 		}
 		writer.Close()
+		// keep consuming, so that a target that gave up never blocks the dispatcher
+		for range sender.buffer { //nolint:revive
+		}
 	})
 	return sender
 }
